@@ -30,7 +30,26 @@ def predict(cfg, q=None):
         out.append(dict(key='DGeod_sign', what='DGeod_times_r2 = %g > 0' % q.DGeod_times_r2, cfg=jsonable(cfg)))
     if p2 == 0 and (q.DWell_times_r2 != 0 or q.DGeod_times_r2 != 0 or q.DMerc_times_r2 != 0):
         out.append(dict(key='p2zero', what='Mercier terms do not vanish for p2 = 0', cfg=jsonable(cfg)))
-    return out, len(checks) + 2
+    ngeo = 0
+    if q.order == 'r3':
+        # geometric clause: V' and V'' from the Jacobian of the RETURNED position vector (series algebra of oracle_C01; props/C11_volume.v)
+        import oracle_C01
+        tail = oracle_C01.spectral_tail(q)
+        if tail < 1e-10:
+            res_, _ = oracle_C01.residuals(q, np.random.default_rng(0))
+            sg = res_['sqrtg'].c                                  # (order, theta samples, phi)
+            a1, a3 = np.mean(sg[1], axis=0), np.mean(sg[3], axis=0)
+            wmean = lambda f: float(np.sum(f * q.d_l_d_phi) / np.sum(q.d_l_d_phi))
+            sgn = q.sG * q.spsi
+            Vp = 2 * pi / B0 * (2 * pi * wmean(sgn * a1))
+            Vpp = 2 * pi / B0 * (2 / B0) * (2 * pi * wmean(sgn * a3))
+            ngeo = 2
+            if abs(Vp - 4 * pi * pi * abs(G0) / B0 ** 2) > 1e-8 * abs(Vp):
+                out.append(dict(key='Vprime_geometric', what="V' from the Jacobian of the returned surfaces is %.12g, 4 pi^2 |G0|/B0^2 = %.12g" % (Vp, 4 * pi * pi * abs(G0) / B0 ** 2), cfg=jsonable(cfg)))
+            terms = 4 * pi * pi * abs(G0) / B0 ** 3 * (3 * eta * eta + 4 * abs(q.B20_mean) / B0 + 2 * (abs(q.G2) + abs(q.iota * q.I2)) / abs(G0))
+            if abs(Vpp - q.d2_volume_d_psi2) > 1e-7 * max(terms, abs(Vpp)):
+                out.append(dict(key='V2_geometric', what="reported d2_volume_d_psi2 = %.12g but the second psi-derivative of the volume enclosed by the returned surfaces is %.12g" % (q.d2_volume_d_psi2, Vpp), cfg=jsonable(cfg)))
+    return out, len(checks) + 2 + ngeo
 
 
 def main():
@@ -53,7 +72,7 @@ def main():
     while tried < nn and (a.mode == 'check' or (time.time() - t0 < a.budget and not res['violations'])):
         tried += 1
         try:
-            cfg, q = gen_admissible(rng, order=['r2', 'r3'][tried % 2])
+            cfg, q = gen_admissible(rng, order=['r2', 'r3'][tried % 2], nphi=(int(2 * rng.integers(30, 50) + 1) if tried % 2 else None), simple=(tried % 4 == 1))
         except RuntimeError:
             continue
         key = '%s/sG%+d/p2%s/B0%s' % (cfg['order'], cfg['sG'], '=0' if not cfg.get('p2') else '!=0', '=1' if cfg.get('B0', 1) == 1 else '!=1')
